@@ -529,3 +529,67 @@ pub fn spec() -> Spec<Case> {
         extra_coverage: BTreeMap::new(),
     }
 }
+
+// ---------------------------------------------------------------------------
+// In-process layer (used by the coverage-guided target `c20_ingest`): the parse
+// layer of every preset, including the transcript side files it reads, must
+// return Ok or Err - never panic - for any bytes.
+
+/// `mode` 0: `bytes` are the hook payload itself; 1: a valid payload for the
+/// preset names a transcript file whose content is `bytes`.
+/// Returns the panic message if the preset panicked.
+pub fn inproc_ingest(preset_idx: u8, mode: u8, bytes: &[u8], scratch: &Path) -> Option<String> {
+    use git_ai::commands::checkpoint_agent::agent_presets::*;
+    use git_ai::commands::checkpoint_agent::agent_v1_preset::AgentV1Preset;
+    use git_ai::commands::checkpoint_agent::amp_preset::AmpPreset;
+    use git_ai::commands::checkpoint_agent::opencode_preset::OpenCodePreset;
+    let (preset, event) = PRESETS[preset_idx as usize % PRESETS.len()];
+    let _ = std::fs::create_dir_all(scratch);
+    let payload = if mode % 2 == 0 {
+        String::from_utf8_lossy(bytes).into_owned()
+    } else {
+        let t = scratch.join("transcript.jsonl");
+        let _ = std::fs::write(&t, bytes);
+        // amp reads <threads>/<thread_id>.json, others the named path
+        let amp = scratch.join("amp-threads");
+        let _ = std::fs::create_dir_all(&amp);
+        let _ = std::fs::write(amp.join("T-019ca1ce-3ae2-7686-a41e-ccc078837f8a.json"), bytes);
+        template(preset, event, scratch, &["src/code.rs".to_string()], &t).to_string()
+    };
+    let r = std::panic::catch_unwind(std::panic::AssertUnwindSafe(|| {
+        let flags = AgentCheckpointFlags { hook_input: Some(payload.clone()) };
+        let _ = match preset {
+            "claude" => ClaudePreset.run(flags).map(|_| ()),
+            "codex" => CodexPreset.run(flags).map(|_| ()),
+            "gemini" => GeminiPreset.run(flags).map(|_| ()),
+            "continue-cli" => ContinueCliPreset.run(flags).map(|_| ()),
+            "cursor" => CursorPreset.run(flags).map(|_| ()),
+            "github-copilot" => GithubCopilotPreset.run(flags).map(|_| ()),
+            "amp" => AmpPreset.run(flags).map(|_| ()),
+            "ai_tab" => AiTabPreset.run(flags).map(|_| ()),
+            "agent-v1" => AgentV1Preset.run(flags).map(|_| ()),
+            "droid" => DroidPreset.run(flags).map(|_| ()),
+            "opencode" => OpenCodePreset.run(flags).map(|_| ()),
+            _ => Ok(()),
+        };
+    }));
+    match r {
+        Ok(()) => None,
+        Err(p) => Some(
+            p.downcast_ref::<String>()
+                .cloned()
+                .or_else(|| p.downcast_ref::<&str>().map(|s| s.to_string()))
+                .unwrap_or_else(|| "panic".into()),
+        ),
+    }
+}
+
+/// Valid payloads (one per preset/event) used to seed the fuzz corpus.
+pub fn seed_payloads(scratch: &Path) -> Vec<(u8, String)> {
+    (0..PRESETS.len() as u8)
+        .map(|i| {
+            let (p, e) = PRESETS[i as usize];
+            (i, template(p, e, scratch, &["src/code.rs".to_string()], &scratch.join("transcript.jsonl")).to_string())
+        })
+        .collect()
+}
